@@ -268,15 +268,37 @@ theorem qualified_name_same (vt : GoTy) (pkg nm rest : List Char) (hp : identLik
   obtain ⟨c2, r2, rfl, hc2⟩ := hn0
   simp only [hc1, hc2, Bool.not_true, Bool.false_eq_true, ↓reduceIte]
   have d1 : doMatchStruct vt ('.' :: (c2 :: r2 ++ rest)) (c1 :: r1) =
-      some ((vt.name == "" && vt.isStructKind) || String.ofList (c2 :: r2) == vt.name, rest) := by
+      some (((vt.name == "" && vt.isStructKind) && !isTypeKeyword (c2 :: r2)) ||
+        String.ofList (c2 :: r2) == vt.name, rest) := by
     unfold doMatchStruct
     simp only [e3, Bool.false_eq_true, ↓reduceIte, e2]
     simp [hc2]
   have d2 : doMatchStruct vt rest (c2 :: r2) =
-      some ((vt.name == "" && vt.isStructKind) || String.ofList (c2 :: r2) == vt.name, rest) := by
+      some (((vt.name == "" && vt.isStructKind) && !isTypeKeyword (c2 :: r2)) ||
+        String.ofList (c2 :: r2) == vt.name, rest) := by
     unfold doMatchStruct
     simp only [htok, Bool.false_eq_true, ↓reduceIte]
     rcases htokshape with rfl | rfl | rfl <;> simp
   rw [d1, d2]
+
+
+/-- an anonymous struct does not answer to the keyword of another type (D25): `i64`, `string`, `double`,
+    `bool`, `list`, … as the whole annotation of a field (element, key, value) of anonymous struct type is a
+    mistyped annotation, as it is for a named struct -/
+theorem anon_struct_keyword_mistyped (sid : Nat) (kw rest : List Char) (hk : identLike kw)
+    (hrest : stopsIdent rest) (hkw : isTypeKeyword kw = true) (hs : isKeyword .strct kw = false)
+    (hend : ∃ tok sp, readToken rest true = some (tok, sp) ∧ (tok = [] ∨ tok = [':'] ∨ tok = ['>'])) :
+    matchAnnot (.strct "" sid) .strct (kw ++ rest) = none := by
+  obtain ⟨tok, sp, htok, htokshape⟩ := hend
+  have e2 : readToken (kw ++ rest) false = some (kw, rest) := readToken_ident kw rest false hk hrest
+  obtain ⟨c, r, rfl, hc, _⟩ := hk
+  unfold matchAnnot
+  simp only [e2, hs, Bool.false_eq_true, ↓reduceIte, hc, Bool.not_true]
+  have d : doMatchStruct (.strct "" sid) rest (c :: r) = some (false, rest) := by
+    unfold doMatchStruct
+    simp only [htok, hkw]
+    rcases htokshape with rfl | rfl | rfl <;> simp [GoTy.name, GoTy.isStructKind]
+  rw [d]
+  simp
 
 end Frugal
